@@ -468,8 +468,12 @@ func (c connectStreamClientProtocol) encodeEnd(op *operation, end *responseEnd, 
 		buffer.Reset()
 		buffer.WriteString(`{"error": {"code": "resource_exhausted", "message": ` +
 			strconv.Quote(fmt.Sprintf("end of stream is %d bytes, exceeds max buffer size (%d)", length, limit)) + `}}`)
+		length = buffer.Len()
 	}
-	env := envelope{trailer: true, length: uint32(buffer.Len())} //nolint:gosec // Length is validated above.
+	if int64(length) > math.MaxUint32 {
+		return nil // cannot be framed at all (the compact end above is tiny)
+	}
+	env := envelope{trailer: true, length: uint32(length)} //nolint:gosec // Length is validated above.
 	envBytes := c.encodeEnvelope(env)
 	_, _ = writer.Write(envBytes[:])
 	_, _ = buffer.WriteTo(writer)
